@@ -8,3 +8,31 @@ Proof. exact stroke_nonpositive_width_paints_nothing. Qed.
 Print Assumptions C04_nonpositive_width_paints_nothing_partial.
 Theorem C04_stroke_is_fill_of_outline_partial : forall st p s o, step_op st (OpStroke p s o) = fill st p s o.
 Proof. reflexivity. Qed.
+
+(* ---- every subpath is stroked on its own (StrokeProofs.v) ---- *)
+Require Import RQ.StrokeProofs.
+
+(* caps and joins are decided inside a subpath: the outline of a path is the outline of what precedes a MoveTo followed
+   by the outline of the rest, each taken on its own (the previous subpath is capped, nothing of it - cursor, normals,
+   start point - is read again; same errors too) *)
+Theorem C04_every_subpath_is_stroked_on_its_own_partial : forall ops1 p ops2 w w1 w2 st,
+  stroke_to_path (mk_path (ops1 ++ MoveTo p :: ops2) w) st =
+  do r1 <- stroke_to_path (mk_path ops1 w1) st;
+  do r2 <- stroke_to_path (mk_path (MoveTo p :: ops2) w2) st;
+  Ok (mk_path (p_ops r1 ++ p_ops r2) NonZero).
+Proof. exact stroke_to_path_concat. Qed.
+Print Assumptions C04_every_subpath_is_stroked_on_its_own_partial.
+
+(* the offset region of one segment with butt caps: the rectangle a +- n*hw, b +- n*hw, n the unit normal, hw half the width *)
+Theorem C04_single_segment_is_its_offset_rectangle_partial : forall a b n w st,
+  fle (s_width st) f0 = false -> s_cap st = CapButt -> compute_normal a b = Some n ->
+  let hw := fdiv (s_width st) (of_int 2) in
+  stroke_to_path (mk_path [MoveTo a; LineTo b] w) st =
+  Ok (mk_path [MoveTo (fadd (px a) (fmul (px n) hw), fadd (py a) (fmul (py n) hw));
+               LineTo (fadd (px b) (fmul (px n) hw), fadd (py b) (fmul (py n) hw));
+               LineTo b;
+               LineTo (fadd (px b) (fmul (fneg (px n)) hw), fadd (py b) (fmul (fneg (py n)) hw));
+               LineTo (fsub (px a) (fmul (px n) hw), fsub (py a) (fmul (py n) hw));
+               LineTo a; Close] NonZero).
+Proof. exact stroke_single_segment_butt. Qed.
+Print Assumptions C04_single_segment_is_its_offset_rectangle_partial.
